@@ -3,6 +3,7 @@
 mod common;
 mod engines;
 mod sqlgen;
+mod sched;
 use common::*;
 
 fn main() {
